@@ -12,6 +12,7 @@ package main
 
 import (
 	"context"
+	"net/http"
 	"encoding/json"
 	"flag"
 	"fmt"
@@ -138,7 +139,10 @@ func mfRunJob(j mfJob) mfLine {
 
 type mfDelivery struct {
 	Tag, Method, URI, Body, Common string
+	Seq, Host                      string // per-entry in-file header state (uri, uripost): [X-Seq: id] [Host: id.example.org]
+	rawURI                         string
 	Invalid                        bool
+	keep                           *http.Request // the built request, looked at again when the whole file has been read
 	Raw                            string // whole projection (fuzz: compared for equality with the reference run)
 }
 
@@ -287,6 +291,10 @@ func mfHTTPProvider(format, mode string, data []byte) func() (core.Provider, err
 }
 
 func mfHTTPProviderH(format, mode string, data []byte, headers []string) func() (core.Provider, error) {
+	return mfHTTPProviderHP(format, mode, data, headers, 1)
+}
+
+func mfHTTPProviderHP(format, mode string, data []byte, headers []string, passes int) func() (core.Provider, error) {
 	return func() (core.Provider, error) {
 		fs := afero.NewMemMapFs()
 		if err := afero.WriteFile(fs, "/ammo", data, 0o644); err != nil {
@@ -296,33 +304,81 @@ func mfHTTPProviderH(format, mode string, data []byte, headers []string) func() 
 		if format == "jsonarray" {
 			dec = httpconf.DecoderJSONLine
 		}
-		conf := httpconf.Config{Decoder: dec, File: "/ammo", Passes: 1, Preload: mode == "preload",
+		conf := httpconf.Config{Decoder: dec, File: "/ammo", Passes: uint(passes), Preload: mode == "preload",
 			ContinueOnError: mode == "continue", Headers: headers}
 		return httpprov.NewProvider(fs, conf)
 	}
 }
 
 func mfGRPCProvider(mode string, data []byte) func() (core.Provider, error) {
+	return mfGRPCProviderP(mode, data, 1)
+}
+
+func mfGRPCProviderP(mode string, data []byte, passes int) func() (core.Provider, error) {
 	return func() (core.Provider, error) {
 		fs := afero.NewMemMapFs()
 		if err := afero.WriteFile(fs, "/ammo", data, 0o644); err != nil {
 			machinery("%v", err)
 		}
-		return grpcjson.NewProvider(fs, grpcjson.Config{File: "/ammo", Passes: 1, ContinueOnError: mode == "continue"}), nil
+		return grpcjson.NewProvider(fs, grpcjson.Config{File: "/ammo", Passes: passes, ContinueOnError: mode == "continue"}), nil
 	}
+}
+
+// file passes requested from the provider (Malformed!NPasses)
+func mfPasses(c mfCase) int {
+	switch c.Cls {
+	case "cut":
+		return vt.Int(c.Arg[1])
+	case "long":
+		return vt.Int(c.Arg[2])
+	}
+	return 1
+}
+
+func mfHeadline(req *http.Request) string {
+	return fmt.Sprintf("%s %s host=%q seq=%q common=%q", req.Method, req.URL.RequestURI(), req.Host, req.Header.Get("X-Seq"), req.Header.Get("X-Common"))
+}
+
+func mfHeadlineOf(d mfDelivery) string {
+	return fmt.Sprintf("%s %s host=%q seq=%q common=%q", d.Method, d.rawURI, d.Host, d.Seq, d.Common)
 }
 
 func mfRunAmmoCase(c mfCase) mfLine {
 	data, entries := mfRenderCase(c)
+	passes := mfPasses(c)
 	var r mfRunResult
 	if c.Format == "grpcjson" {
-		r = mfRunProvider(mfGRPCProvider(c.Mode, data), mfProjectGRPC, 0)
+		r = mfRunProvider(mfGRPCProviderP(c.Mode, data, passes), mfProjectGRPC, 0)
 	} else {
-		r = mfRunProvider(mfHTTPProviderH(c.Format, c.Mode, data, mfConfigHeaders(c.Cls)), mfProjectHTTP, 0)
+		r = mfRunProvider(mfHTTPProviderHP(c.Format, c.Mode, data, mfConfigHeaders(c.Cls), passes), mfProjectHTTP, 0)
+	}
+	byTag := map[string]mfEntry{}
+	if c.Cls == "long" {
+		for _, e := range entries {
+			byTag[e.Tag] = e
+		}
 	}
 	ids := make([]string, len(r.deliveries))
 	for i, d := range r.deliveries {
+		if c.Cls == "long" {
+			// hundreds of entries: look the candidate up by tag, then compare the whole projection as usual
+			e, ok := byTag[d.Tag]
+			if d.Invalid || !ok {
+				ids[i] = mfIdentify(d, nil)
+			} else {
+				ids[i] = mfIdentify(d, []mfEntry{e})
+			}
+			continue
+		}
 		ids[i] = mfIdentify(d, entries)
+		// "unchanged" holds for the lifetime of a delivery: look at the built request again now that the
+		// provider has read the rest of the file
+		if d.keep != nil {
+			late := mfHeadline(d.keep)
+			if late != mfHeadlineOf(d) {
+				ids[i] = trunc(fmt.Sprintf("mutated(%s: %s -> %s)", ids[i], mfHeadlineOf(d), late), 200)
+			}
+		}
 	}
 	info := map[string]interface{}{"ctor_err": errStr(r.ctorErr), "run_err": errStr(r.runErr), "bytes": len(data)}
 	if len(data) < 600 {
